@@ -29,6 +29,7 @@ Proof.
 Qed.
 
 Lemma mp_known_refuted : mp_ok w_coord_id = false /\ mp_ok w_discrete_ptset_write = false /\ mp_ok w_family_name_read = false /\
-  arity_ok w_coord_id = false /\ mp_row_known w_coord_id = true /\ mp_row_known w_discrete_ptset_write = true /\
-  mp_row_known w_family_name_read = true.
+  arity_ok w_coord_id = false /\ mp_row_known w_coord_id = false /\ mp_row_known w_discrete_ptset_write = false /\
+  mp_row_known w_family_name_read = false /\ mp_table_ok [w_coord_id] = false /\ mp_table_ok [w_discrete_ptset_write] = false /\
+  mp_table_ok [w_family_name_read] = false.
 Proof. vm_compute. repeat split; reflexivity. Qed.
